@@ -13,7 +13,8 @@ import FlowCal
 SAMPLE_FAULTS = {
     'file_not_found': 'not found', 'too_few_events': 'lower than 400', 'gate_fraction': 'gate fraction', 'units': 'not recognized',
     'beads_without_curve': 'not available', 'channel_without_curve': 'no standard curve', 'other_instrument': 'Instruments for',
-    'amplifier': 'Amplification type', 'voltage': 'Detector voltage', 'beads_failed': 'not available'}
+    'amplifier': 'Amplification type', 'voltage': 'Detector voltage', 'beads_failed': 'not available',
+    'gate_fraction_tiny': 'gate fraction', 'gate_fraction_above': 'gate fraction', 'units_near_miss': 'not recognized'}
 BEADS_FAULTS = {'file_not_found': 'not found', 'too_few_events': 'lower than 400', 'gate_fraction': 'gate fraction', 'unequal_mef': 'same number'}
 
 
@@ -21,7 +22,7 @@ FAULT_OF_MESSAGE = [('not found', 'fileNotFound'), ('lower than 400', 'tooFewEve
                     ('not available', 'mefNotAvailable'), ('no standard curve', 'noCurveForChannel'), ('Instruments for', 'otherInstrument'),
                     ('Amplification type', 'amplificationType'), ('Detector voltage', 'detectorVoltage')]
 FILES = {'s0.fcs': 600, 's1.fcs': 600, 'nope.fcs': None, 'small.fcs': 120, 'volt.fcs': 600, 'lin.fcs': 600}
-UNIT_CELLS = [None, None, 'MEF', 'mef', 'Mef', 'a.u.', 'AU', 'RFI', 'rfi', 'Channel', 'furlongs', 'MEFL', '']
+UNIT_CELLS = [None, None, 'MEF', 'mef', 'Mef', 'a.u.', 'AU', 'RFI', 'rfi', 'Channel', 'furlongs', 'MEFL', '', 'a.u', '.au', 'u', 'rf', 'me', 'hannel', ' ']
 
 
 def fault_of(msg):
@@ -87,6 +88,12 @@ class Setup:
             return R(sid, 'FC001', 's0.fcs', u, 'B1', gate_fraction=1.5)
         if kind == 'units':
             return R(sid, 'FC001', 's0.fcs', {'FL1': 'furlongs'}, 'B1')
+        if kind == 'gate_fraction_tiny':
+            return R(sid, 'FC001', 's0.fcs', u, 'B1', gate_fraction=-1e-6)
+        if kind == 'gate_fraction_above':
+            return R(sid, 'FC001', 's0.fcs', u, 'B1', gate_fraction=float(np.nextafter(1.0, 2.0)))
+        if kind == 'units_near_miss':
+            return R(sid, 'FC001', 's0.fcs', {'FL1': ['a.u', '.au', 'u', 'me', 'rf', 'channe', 'MEFL', 'a.u.au'][sum(map(ord, sid)) % 8]}, 'B1')
         if kind == 'beads_without_curve':
             return R(sid, 'FC001', 's0.fcs', {'FL1': 'MEF'}, 'BNOMEF')
         if kind == 'beads_failed':
